@@ -19,6 +19,9 @@ pub struct Case {
   pub build: BuildCase,
   pub schedules: Vec<Schedule>,
   pub reruns: u8,
+  /// a registry and an entry module importing from it (extra root)
+  #[serde(default)]
+  pub jsr: Option<crate::props::c07::JsrPart>,
 }
 
 fn params(tier: Tier) -> GenParams {
@@ -44,11 +47,13 @@ pub fn spec() -> PropSpec<Case> {
           1..=tier.pick(4, 8),
         ),
         2..=4u8,
+        proptest::option::weighted(0.4, crate::props::c07::jsr_part_strategy()),
       )
-        .prop_map(|(build, schedules, reruns)| Case {
+        .prop_map(|(build, schedules, reruns, jsr)| Case {
           build,
           schedules,
           reruns,
+          jsr,
         })
         .boxed()
     },
@@ -117,7 +122,23 @@ pub fn run(
   b: &BuildCase,
   schedule: Option<&Schedule>,
 ) -> Result<(Observed, DriveStats), DriveStats> {
-  let mut loader = WorldLoader::from_world(&b.world);
+  run_with(b, None, schedule)
+}
+
+pub fn run_with(
+  b: &BuildCase,
+  jsr: Option<&crate::props::c07::JsrPart>,
+  schedule: Option<&Schedule>,
+) -> Result<(Observed, DriveStats), DriveStats> {
+  let mut served = crate::harness::materialize(&b.world);
+  let mut roots = b.roots.clone();
+  let mut cache = None;
+  if let Some(j) = jsr {
+    cache = Some(j.install(&mut served));
+    roots.push(crate::props::c07::JSR_MAIN.to_string());
+  }
+  let mut loader = WorldLoader::new(served);
+  loader.cache = cache;
   if schedule.is_some() {
     loader.sched = Sched::new(true);
   }
@@ -126,7 +147,7 @@ pub fn run(
   let default = Schedule::default();
   let stats = build_into(
     &mut graph,
-    parse_roots(&b.roots),
+    parse_roots(&roots),
     parse_imports(&b.imports),
     BuildEnv {
       loader: &loader,
@@ -134,7 +155,7 @@ pub fn run(
       locker: Some(&mut locker),
       npm: None,
       jsr_version_resolver: None,
-      prefer_cached: false,
+      prefer_cached: jsr.map(|j| j.prefer_cached).unwrap_or(false),
     },
     schedule.unwrap_or(&default),
     false,
@@ -186,10 +207,11 @@ pub fn diff_observed(a: &Observed, b: &Observed) -> Option<(String, String)> {
 pub fn check(case: &Case, _tier: Tier) -> Outcome {
   let mut o = Outcome::default();
   let b = &case.build;
-  let (base, _) = run(b, None).expect("ungated");
+  let jsr = case.jsr.as_ref();
+  let (base, _) = run_with(b, jsr, None).expect("ungated");
   let mut contested = 0;
   for s in &case.schedules {
-    match run(b, Some(s)) {
+    match run_with(b, jsr, Some(s)) {
       Ok((obs, stats)) => {
         contested += stats.contested;
         if let Some((sig, msg)) = diff_observed(&base, &obs) {
@@ -205,7 +227,7 @@ pub fn check(case: &Case, _tier: Tier) -> Outcome {
     }
   }
   for i in 0..case.reruns {
-    let (again, _) = run(b, None).expect("ungated");
+    let (again, _) = run_with(b, jsr, None).expect("ungated");
     if let Some((sig, msg)) = diff_observed(&base, &again) {
       o.violate(format!("C04/rerun/{sig}"), format!("re-run {i}\n{msg}"));
     }
@@ -236,6 +258,12 @@ pub fn check(case: &Case, _tier: Tier) -> Outcome {
   }
   if !base.locker_sets.is_empty() {
     o.label("lockfile-writes");
+  }
+  if let Some(j) = jsr {
+    o.label("jsr-registry");
+    if j.prefer_cached {
+      o.label("prefer-cached");
+    }
   }
   o.nontrivial = contested > 0 || dyn_branches.len() >= 2;
   o
@@ -281,7 +309,7 @@ pub fn extra(tier: Tier, seed: u64) -> ExtraReport {
       let (obs, options) = match run_exact(&b, &sched) {
         Ok(x) => x,
         Err(_) => {
-          let case = Case { build: b.clone(), schedules: vec![], reruns: 0 };
+          let case = Case { build: b.clone(), schedules: vec![], reruns: 0, jsr: None };
           if sigs.insert("deadlock".to_string()) {
             rep.violations.push((
               Violation { sig: "C04/build-does-not-finish-under-schedule".into(), msg: format!("exact picks {prefix:?}") },
@@ -306,6 +334,7 @@ pub fn extra(tier: Tier, seed: u64) -> ExtraReport {
           build: b.clone(),
           schedules: vec![Schedule { choices, tail: 0 }],
           reruns: 0,
+          jsr: None,
         };
         if sigs.insert(sig.clone()) {
           rep.violations.push((
@@ -344,7 +373,7 @@ pub fn extra(tier: Tier, seed: u64) -> ExtraReport {
       unfinished += 1;
     }
     if any_contested {
-      let case = Case { build: b.clone(), schedules: vec![], reruns: 0 };
+      let case = Case { build: b.clone(), schedules: vec![], reruns: 0, jsr: None };
       let j = serde_json::to_value(&case).unwrap();
       rep.nontrivial_hashes.push(crate::runner::hash_json(&j));
       if rep.samples.is_empty() {
